@@ -131,3 +131,41 @@ def o08_4(tier):
     out = [(f"{s},k={k}", mk(s, k)) for s in BASE_SHAPES for k in ((0, 2) if tier == "quick" else (0, 1, 2, 5, 15))]
     out += [(f"{s},k=1", mk(s, 1)) for s in SHAPES if "~v" in s and (tier != "quick" or s.endswith(("~v1", "~v2")))]
     return out
+
+
+def column(ctx, df, name):
+    if ctx.mode == "sym":
+        return list(df.columns[name])
+    return df[name].tolist()
+
+
+@obligation("O08.5", ["C08", "C10"], ["forsys.frames:Frame.get_tensions", "forsys.frames:Frame.get_gt_tensions", "forsys.frames:Frame.get_pressures",
+                                     "forsys.frames:Frame.get_external_edges_ids"],
+            "result tables: get_tensions() lists exactly the internal interfaces, in frame order, each with its own stored tension and reference value; "
+            "with_border=True lists every interface; get_pressures() lists every cell with its own pressure", tier="Pn")
+def o08_5(tier):
+    def mk(shape):
+        def h(ctx):
+            m, fr, cycles, info, _ = build(ctx, shape, 1)
+            tens, gts = {}, {}
+            for beid, be in ctx.list_of(ctx.get(fr, "big_edges")):
+                tens[beid], gts[beid] = ctx.real(f"T{beid}"), ctx.real(f"G{beid}")
+                ctx.set(be, "tension", tens[beid])
+                ctx.set(be, "gt", gts[beid])
+            pres = {}
+            for cid in cycles:
+                pres[cid] = ctx.real(f"P{cid}")
+                ctx.set(m.c[cid], "pressure", pres[cid])
+            internal_ids = [ctx.get(b, "big_edge_id") for b in ctx.list_of(ctx.get(fr, "internal_big_edges"))]
+            for with_border, ids in ((False, internal_ids), (True, sorted(tens))):
+                df = ctx.callm(fr, "get_tensions", with_border)
+                ctx.ensure([int(x) for x in column(ctx, df, "id")] == ids, f"with_border={with_border}: ids listed = {'all' if with_border else 'internal'} interfaces in order")
+                ctx.ensure(ctx.And(*[ctx.close(a, tens[i]) for a, i in zip(column(ctx, df, "stress"), ids)]), f"with_border={with_border}: each row carries that interface's tension")
+                ctx.ensure(ctx.And(*[ctx.close(a, gts[i]) for a, i in zip(column(ctx, df, "gt"), ids)]), f"with_border={with_border}: and its reference value")
+            g = ctx.callm(fr, "get_gt_tensions", False)
+            ctx.ensure([int(x) for x in column(ctx, g, "id")] == internal_ids, "get_gt_tensions: internal interfaces in order")
+            p = ctx.callm(fr, "get_pressures")
+            ctx.ensure([int(x) for x in column(ctx, p, "id")] == list(cycles), "get_pressures: every cell, in dictionary order")
+            ctx.ensure(ctx.And(*[ctx.close(a, pres[c]) for a, c in zip(column(ctx, p, "pressure"), cycles)]), "each cell with its own pressure")
+        return h
+    return [(s, mk(s)) for s in ("tri_star", "border_fan", "tri_star_ear~v2")]
